@@ -135,22 +135,23 @@ class ExprMixin:
         raise Unsupported("subscript of %r" % (o,))
 
     def load_slice(self, st, o, sl):
-        """seq[a:b] with constant non-negative bounds (or none), no step: a fresh list."""
-        def const(n, default):
-            if n is None:
-                return default
-            if isinstance(n, ast.Constant) and isinstance(n.value, int) and n.value >= 0:
-                return n.value
-            raise Unsupported("slice bound %s" % ast.unparse(n))
+        """seq[a:b] with non-negative integer bounds (or none), no step: a fresh list."""
         if sl.step is not None or o.kind != "ref":
             raise Unsupported("slice with a step / of %r" % (o,))
-        seq = st.get("list", o.t)
-        lo = const(sl.lower, 0)
-        hi = const(sl.upper, None)
-        n = z3.Length(seq)
-        hi_t = n if hi is None else z3.If(n < hi, n, z3.IntVal(hi))
-        lo_t = z3.If(n < lo, n, z3.IntVal(lo))
-        return [(st, self.new_list(st, z3.SubSeq(seq, lo_t, z3.If(hi_t - lo_t < 0, 0, hi_t - lo_t))))]
+        bounds = [b for b in (sl.lower, sl.upper) if b is not None]
+
+        def build(s, vs):
+            seq = s.get("list", o.t)
+            n = z3.Length(seq)
+            it = iter(vs)
+            lo = self.to_int(s, next(it)) if sl.lower is not None else z3.IntVal(0)
+            hi = self.to_int(s, next(it)) if sl.upper is not None else n
+            k = self.ordinal("slice")
+            self.oblige(s, "slice#%d.bounds_are_not_negative" % k, z3.And(lo >= 0, hi >= 0), kind="callsite")
+            hi_t = z3.If(n < hi, n, hi)
+            lo_t = z3.If(n < lo, n, lo)
+            return [(s, self.new_list(s, z3.SubSeq(seq, lo_t, z3.If(hi_t - lo_t < 0, 0, hi_t - lo_t))))]
+        return self.bind(self.eval_list(st, bounds), build)
 
     # -- displays ----------------------------------------------------------------------------------------
     def e_List(self, st, node):
